@@ -44,7 +44,11 @@ DOMAIN RESTRICTIONS.  Each is a named switch in `FLAGS` (all False = the claimed
 for reproducing, ./check never does).  Every one of them hides behaviour of the UNCHANGED repository code that violates the
 oracle and does not depend on how DBOS is emulated (reported to the main session; minimal cases, all with workers=1, ties=[],
 release_takes=0):
-  * multi_cycle            at most ONE release/resume cycle per run.  `_do_resume` folds the pending tick into the rebuilt state
+  * multi_cycle            [REPAIRED in /repo by a `fix:` commit (the pending tick is now appended to the tick log in `_do_resume`); since
+                           then several release/resume cycles per run ARE generated when the lifecycle lock is instantaneous
+                           (release_takes == 0); with a slow releasing->released write the second cycle still trips the oracle
+                           (`idle_run_not_released`, state `releasing`) in a way that was not analysed, so that corner stays excluded.]
+                           Originally: at most ONE release/resume cycle per run.  `_do_resume` folds the pending tick into the rebuilt state
                            (`rebuild_state_from_ticks(init_state, [pending_tick])`) but the tick never passes `on_tick`, so it
                            is missing from the tick log; the step result that follows is logged.  The next resume replays the log
                            and raises `ValueError: Worker 0 not found in in_progress` out of `send_event` (lifecycle already
@@ -449,7 +453,9 @@ def strategy(tier: str = "quick"):
         I = draw(st.sampled_from(IDLE_TIMEOUTS))
         short = [g for g in SHORT if g < I] + NEAR_BEFORE
         long_ = [g for g in LONG if g > I] + NEAR_AFTER + (["at"] if FLAGS["exact_deadline"] else [])
-        if FLAGS["multi_cycle"]:
+        # (several release/resume cycles per run: with an instantaneous lifecycle lock; see `multi_cycle` above)
+        release_takes = draw(st.sampled_from([0, 0, 0, 0.5, 1.0]))
+        if FLAGS["multi_cycle"] or (release_takes == 0 and draw(st.booleans())):
             gaps = [draw(st.sampled_from(short + long_)) for _ in range(total)]
         else:
             # at most one gap reaches the release deadline (biased towards having one)
@@ -477,7 +483,7 @@ def strategy(tier: str = "quick"):
             "wake": wake,
             # virtual seconds the lifecycle lock's releasing->released write takes: sends shortly after the deadline then find the run
             # in state `releasing` and have to wait for the release to complete
-            "release_takes": draw(st.sampled_from([0, 0, 0, 0.5, 1.0])),
+            "release_takes": release_takes,
             "ties": draw(st.lists(st.integers(0, 7), max_size=3)),
         }
 
@@ -491,7 +497,7 @@ def in_domain(case: dict) -> str | None:
     if not FLAGS["exact_deadline"] and any(g == "at" or (isinstance(g, (int, float)) and float(g) == I) for g in gaps):
         return "exact_deadline"
     reach = [g for g in gaps if g in ("at", "just_after", "after") or (isinstance(g, (int, float)) and float(g) >= I)]
-    if not FLAGS["multi_cycle"] and len(reach) > 1:
+    if not FLAGS["multi_cycle"] and len(reach) > 1 and float(case.get("release_takes", 0) or 0) > 0:
         return "multi_cycle"
     w = case.get("wake")
     if w:
